@@ -84,6 +84,9 @@ def Q2_Q3_table(ctx):
                 ins = show(e.d['args'][2])
                 m = re.search(r'guarded_create::<(true|false)', ins)
                 pairs.add((op, m.group(1) if m else None))
+                # the static gas of the replaced entries stays revm's (0: CREATE/CREATE2 charge dynamically inside the handler)
+                if len(e.d['args']) > 3 and not (e.d['args'][3][0] == 'const' and re.match(r'^0(_u\d+|_usize)?$', e.d['args'][3][1])):
+                    pairs.add((op, 'static-gas-' + show(e.d['args'][3])))
                 if has_call(e.d['args'][0], 'new_mainnet_with_spec') and [c for c in calls_in(e.d['args'][0]) if c[1].endswith('new_mainnet_with_spec')][0][2] == (('arg', 1),):
                     ok_base = True
     ctx.ob('Q2', f, 'opcode-pairing', pairs == {('CREATE', 'false'), ('CREATE2', 'true')} and ok_base, f'{sorted(pairs)} base table for the selected spec={ok_base}', site=f.loc(f.b['lo']),
@@ -111,7 +114,16 @@ def Q2_Q3_table(ctx):
         ap = [e for e in p.events if e.kind == 'call' and e.d['callee'].endswith('PrecompilesMap::apply_precompile')]
         ta = [e for e in p.events if is_call(e, 'DynParallelPrecompile::to_alloy')]
         if ap and ta and mentions(ta[0].d['args'][0], ('arg', 4)):
-            okp = True
+            # the closure handed to apply_precompile installs the adapter (returns Some(adapter)), at the address of the same entry
+            okcl = False
+            for s_ in subterms(ap[0].d['args'][2] if len(ap[0].d['args']) > 2 else ('unk', '')):
+                if s_[0] == 'closure' and s_[1] in ctx.facts.by:
+                    cf_ = ctx.fn(ctx.facts.by[s_[1]])
+                    rets = [[e for e in q.events if e.kind == 'ret'][0].d['value'] for q in feasible(cf_.paths())]
+                    okcl = bool(rets) and all(variant_of(r) == 'Some' for r in rets) and any(mentions(c, ta[0].d['result']) or mentions(strip(c), strip(ta[0].d['result'])) for c in s_[2])
+            addr_ok = len(ap[0].d['args']) > 1 and mentions(ap[0].d['args'][1], ('arg', 4))
+            if okcl and addr_ok:
+                okp = True
     ctx.ob('P4', b, 'custom-precompiles-registered-in-build_evm', okp, '', site=b.loc(b.b['lo']),
            what='both execution paths build their EVM through build_evm, which installs every custom precompile (through the restricted adapter) at its address')
     fs = ctx.fn('delegated_safety::config::DelegatedSafetyConfig::for_spec')
@@ -583,3 +595,104 @@ def H4b_journal_tables(ctx):
     exp = {('BalanceTransfer', ('Ne:from,to', 'nonzero:balance'), ('from',)), ('AccountDestroyed', ('nonzero:had_balance',), ('address',))}
     ctx.ob('H4', f, 'debit-source-conditions', src == exp, f'{sorted(map(str, src))}'[:400], site=f.loc(f.b['lo']),
            what='a debit is a non-zero BalanceTransfer with from ≠ to (source = from) or an AccountDestroyed with non-zero had_balance (source = the destroyed address)')
+
+
+def H6_reserve_small_tables(ctx):
+    """small tables of the reserve policy that the larger rules take for granted (survivors of the mutation sweep)"""
+    facts = ctx.facts
+    # the per-account schedule: suffix sums start at zero, grow by each later transaction's maximum spending, and are stored
+    b = ctx.method('delegated_safety::reserve::ReservePlanner', 'build_schedule')
+    bad = []
+    n_store = 0
+    for p in [q for q in b.paths(max_visits=2) if q.end in ('return', 'cut')]:
+        sa = [e for e in p.events if e.kind == 'call' and e.d['callee'].endswith('::saturating_add')]
+        for e in sa:
+            acc = e.d['args'][0]
+            if not (acc[0] == 'const' and 'ZERO' in acc[1]) and not has_call(acc, '::saturating_add'):
+                bad.append(f'the running suffix starts from {show(acc)[:40]} instead of zero')
+            if not has_call(e.d['args'][1], '::max_balance_spending'):
+                bad.append('the amount added is not the transaction\'s maximum balance spending')
+        st = [e for e in p.events if e.kind == 'assign' and (mentions_field(e.d['place'], 'AccountReserveSchedule.cost_from') or 'cost_from' in show(e.d['place']) or has_call(e.d['place'], '::index_mut'))]
+        for e in st:
+            if has_call(e.d['value'], '::saturating_add'):
+                n_store += 1
+        if sa and not [e for e in st if has_call(e.d['value'], '::saturating_add')] and p.end == 'return':
+            bad.append('a suffix sum is computed but not stored in the schedule')
+    ctx.ob('H6', b, 'schedule-stores-suffix-sums-from-zero', n_store >= 1 and not bad, '; '.join(sorted(set(bad))), site=b.loc(b.b['lo']))
+    # lookups: nothing later ⇒ zero
+    for owner in ('ReservePlanner', 'AccountReserveSchedule'):
+        f = ctx.method('delegated_safety::reserve::' + owner, 'required_after')
+        bad = []
+        n_zero = 0
+        for p in feasible(f.paths()):
+            ret = [e for e in p.events if e.kind == 'ret'][0].d['value']
+            if ret[0] == 'const':
+                n_zero += 1
+                if 'ZERO' not in ret[1]:
+                    bad.append(f'the "nothing later" answer is {ret[1][-12:]}')
+            if owner == 'AccountReserveSchedule' and ret[0] != 'const':
+                checked = has_call(ret, '::get') and has_call(ret, '::partition_point')
+                if not checked and not holds_rel(p, len(p.events), lambda op, l, r: op == 'Lt' and has_call(l, '::partition_point') and has_call(r, '::len')):
+                    bad.append('a cost is read without `index < cost_from.len()`')
+        ctx.ob('H6', f, 'no-later-transaction-means-zero', n_zero >= 1 and not bad, '; '.join(sorted(set(bad))), site=f.loc(f.b['lo']),
+               what='an account with no later transaction in the block (or unknown to the index) reserves nothing; anything else reverts its delegated transfers for no reason')
+    # post_execution: the recomputed result gas of a reserve violation is what the handler returns
+    pe = [b_ for b_ in facts.production() if b_['fn'].endswith('Handler>::post_execution') and 'WithReserveHandler' in b_['fn']]
+    okg = False
+    badg = []
+    for b_ in pe:
+        f = ctx.fn(b_)
+        for p in feasible(f.paths()):
+            ret = [e for e in p.events if e.kind == 'ret'][0].d['value']
+            er = calls(p, 'WithReserveHandler::enforce_reserve')
+            if not er or not (ret[0] == 'agg' and ret[2] == 'Ok'):
+                continue
+            d = [of for of in (option_fact(a) for a in p.events) if of and of[1] in ('Some', 'None') and mentions(of[0], er[0].d['result'])]
+            if d and d[-1][1] == 'Some':
+                if mentions(ret, er[0].d['result']):
+                    okg = True
+                else:
+                    badg.append('a reserve violation recomputed the result gas but post_execution returns the original one')
+            elif d and d[-1][1] == 'None':
+                if mentions(ret, er[0].d['result']):
+                    badg.append('no violation but the returned gas comes from enforce_reserve')
+    ctx.ob('H6', 'WithReserveHandler::post_execution', 'violation-result-gas-is-returned', bool(pe) and okg and not badg, '; '.join(sorted(set(badg))),
+           what='the charged top-level revert has its own gas accounting (refund discarded, authorisation refund re-applied); returning the pre-violation figures reports the wrong gas used')
+    n = ctx.fn('delegated_safety::handler::reapply_create_sender_nonce')
+    rows = set()
+    for p in feasible(n.paths()):
+        ret = [e for e in p.events if e.kind == 'ret'][0].d['value']
+        bn = [bool_fact(a) for a in p.events if bool_fact(a) and bool_fact(a)[0][0] == 'call' and bool_fact(a)[0][1].endswith('::bump_nonce')]
+        if bn:
+            rows.add((bn[-1][1], variant_of(ret)))
+    ctx.ob('H6', n, 'nonce-rebump-table', rows == {(True, 'Ok'), (False, 'Err')}, f'{sorted(rows)}', site=n.loc(n.b['lo']),
+           what='bump_nonce() == false is the overflow case and must fail; success must not')
+    # constructors and the policy builder
+    want = {'disabled': ('false', 'false'), 'create_only': ('true', 'false'), 'reserve_only': ('false', 'true'), 'enabled': ('true', 'true')}
+    badc = []
+    for meth, (c, r) in want.items():
+        f = ctx.method('delegated_safety::config::DelegatedSafetyConfig', meth)
+        for p in feasible(f.paths()):
+            ret = [e for e in p.events if e.kind == 'ret'][0].d['value']
+            if ret[0] == 'agg' and ret[4]:
+                fl = dict(zip(ret[4].split(','), ret[3]))
+                got = (fl.get('forbid_delegated_create', ('const', '?'))[1], fl.get('reserve_delegated_balance', ('const', '?'))[1])
+                if got != (c, r):
+                    badc.append(f'{meth}() = create guard {got[0]}, reserve {got[1]}')
+            else:
+                badc.append(f'{meth}() does not build the policy literally')
+    ctx.ob('H6', 'DelegatedSafetyConfig', 'constructor-table', not badc, '; '.join(badc), what='create_only / reserve_only / enabled / disabled mean what they say')
+    w = ctx.method('config::GrevmConfig', 'with_delegated_safety')
+    okw = False
+    for p in feasible(w.paths()):
+        ret = [e for e in p.events if e.kind == 'ret'][0].d['value']
+        asg = [e for e in assigns(p, 'GrevmConfig.delegated_safety') if e.d['value'] == ('arg', 2)]
+        if asg or (ret[0] == 'agg' and ret[4] and dict(zip(ret[4].split(','), ret[3])).get('delegated_safety') == ('arg', 2)):
+            okw = True
+    ctx.ob('H6', w, 'builder-installs-the-policy', okw, '', site=w.loc(w.b['lo']))
+    m = ctx.method('beneficiary::Beneficiary', 'matches')
+    okm = False
+    for p in feasible(m.paths()):
+        ret = [e for e in p.events if e.kind == 'ret'][0].d['value']
+        okm = (ret[0] == 'bin' and ret[1] == 'Eq' or (ret[0] == 'call' and ret[1].endswith('::eq'))) and mentions_field(ret, 'Beneficiary.address') and mentions(ret, ('arg', 2))
+    ctx.ob('H6', m, 'matches-is-address-equality', okm, '', site=m.loc(m.b['lo']), what='every beneficiary special case (history reads, deferred rewards, omitted Basic publication) hangs on this test')
